@@ -240,7 +240,8 @@ def build(spec, plain=False):
         m.teams.append(team)
         m.byname[team.name] = team
     for wps in spec.get("workplaces", []):
-        wp = WpC(name=wps["name"], ID=wps["name"], max_space_size=wps.get("cap"))
+        cap = wps.get("cap")
+        wp = WpC(name=wps["name"], ID=wps["name"], max_space_size=float("inf") if cap == "inf" else cap)
         for fs in wps.get("facilities", []):
             f = FcC(
                 name=fs["name"],
@@ -266,6 +267,37 @@ def build(spec, plain=False):
                 m.workplaces[i].input_workplace_list.append(m.workplaces[src])
             else:
                 m.workplaces[i].append_input_workplace(m.workplaces[src])
+    # hierarchies (parent team / parent workplace) and deliberate aliasing of list objects between model objects
+    for i, tms in enumerate(spec.get("teams", [])):
+        if tms.get("parent") is not None:
+            m.teams[i].set_parent_team(m.teams[tms["parent"]])
+        for ws in tms.get("workers", []):
+            if ws.get("share_logs_with"):
+                a_, b_ = m.byname[ws.get("id") or ws["name"]], m.byname[ws["share_logs_with"]]
+                a_.state_record_list = b_.state_record_list
+                a_.cost_list = b_.cost_list
+                a_.assigned_task_id_record = b_.assigned_task_id_record
+    for i, wps in enumerate(spec.get("workplaces", [])):
+        if wps.get("parent") is not None:
+            m.workplaces[i].set_parent_workplace(m.workplaces[wps["parent"]])
+    if spec.get("alias_conveyor_lists"):
+        # all workplaces with the same set of inputs share ONE input list object; likewise for outputs
+        groups = {}
+        for wp in m.workplaces:
+            groups.setdefault(tuple(id(x) for x in wp.input_workplace_list), []).append(wp)
+        for key, wl in groups.items():
+            if key and len(wl) > 1:
+                shared = wl[0].input_workplace_list
+                for wp in wl[1:]:
+                    wp.input_workplace_list = shared
+        groups = {}
+        for wp in m.workplaces:
+            groups.setdefault(tuple(id(x) for x in wp.output_workplace_list), []).append(wp)
+        for key, wl in groups.items():
+            if key and len(wl) > 1:
+                shared = wl[0].output_workplace_list
+                for wp in wl[1:]:
+                    wp.output_workplace_list = shared
     order = spec.get("order") or list(range(len(m.tasks)))
     wf = BaseWorkflow([m.tasks[i] for i in order])
     m.project = BaseProject(
